@@ -1,9 +1,9 @@
 from props import tu, run
 
 SRC = "harness/c05_pixel_pairing.cpp"
-NPARTS = 14
+NPARTS = 19
 # cases per part (one per model + one per ordered pair + binding cases); the same in both tiers
-CASES = [78, 76, 80, 85, 84, 96, 56, 56, 56, 56, 23, 57, 99, 60]   # part 10: every route to a planar pixel (iterators, &ref / &pixel pointers, const conversions)
+CASES = [78, 76, 80, 85, 84, 96, 56, 56, 56, 56, 23, 57, 99, 60, 60, 92, 74, 88, 52]   # part 10: every route to a planar pixel (iterators, &ref / &pixel pointers, const conversions)
 
 CFG = dict(
     level="exploration",
@@ -43,5 +43,6 @@ CFG = dict(
                secondary=True, tiers=("thorough",)) for k in range(NPARTS)],
     require_obs=["pair.rgba.u8", "pair.rgba.packed4444", "pair.rgba.packed5551", "pair.rgb.packed565", "pair.cmyk.u8", "pair.devicen5.u8",
                  "model.rgba.f32", "model.rgb.packed123", "planar-access.view", "planar-access.ptr-from-pixel",
-                 "compat-table.compatible", "compat-table.incompatible", "convert.rescale", "convert.same-channel-types", "pair.rgb.packed234", "pair.rgba.packed1234"],
+                 "compat-table.compatible", "compat-table.incompatible", "convert.rescale", "convert.same-channel-types", "pair.rgb.packed234", "pair.rgba.packed1234",
+                 "pair.rgba.packed_16__16__16__16_", "pair.rgb.packed8_24__32_", "pair.devicen5.packed_12__12__12__12__12_", "pair.rgb.packed555", "pair.rgb.packed888"],
 )
